@@ -166,6 +166,9 @@ inline rc::Gen<Task> gen_task(int idx_hint = 0) {
 		k.organizer_mailto = std::get<4>(c) == 1;
 		k.order = std::get<2>(c);
 		k.uid = "task-" + std::to_string(idx_hint) + "-" + std::to_string(std::get<3>(c)) + "@verif";
+		// 1 task in 25: every text field near the line limit at once, the written task is longer than the serialiser's 4 KiB buffer
+		if (std::get<3>(c) % 25 == 0) { auto lng = [&](char tag, int n) { std::string v; while ((int)v.size() < n) v += std::string("long-") + tag + "-0123456789_"; v.resize((size_t)n); return v; }; int n0 = 700 + std::get<3>(c) % 290;
+			k.summary = lng('s', n0); k.location = "/" + lng('l', n0 - 13); k.shell = "/" + lng('h', n0 - 29); k.ifile = "/" + lng('i', n0 - 5); k.ofile = "/" + lng('o', n0 - 77); k.efile = "/" + lng('e', n0 - 41); }
 		return k; });
 }
 
